@@ -95,6 +95,10 @@ public:
    */
   template<class T> static T logsum(T lnx, T lny)
   {
+    // Equal arguments: ln(2x) = ln(x) + ln(2). This also covers two log-zeros
+    // (-inf, -inf), for which the difference below would be NaN.
+    if (lnx == lny)
+      return lnx + std::log(2.);
     return (lny < lnx) ?
            lnx + std::log(1. + exp(lny - lnx)) :
            lny + std::log(1. + exp(lnx - lny));
